@@ -27,6 +27,11 @@ TARGETS = [
     ("cmp.rs", r"impl\s+Cmp\s+for\s+DefaultCmp", "find_short_succ", "find_short_succ", {}),
     ("filter.rs", r"impl\s+BloomPolicy", "bloom_hash", "bloom_hash", {}),
     ("filter.rs", r"impl\s+FilterPolicy\s+for\s+BloomPolicy", "key_may_match", "bloom_key_may_match", {}),
+    ("filter_block.rs", r"impl\s+FilterBlockReader", "is_well_formed", "fbr_is_well_formed", {}),
+    ("filter_block.rs", r"impl\s+FilterBlockReader", "num", "fbr_num", {"block": "bytes", "offsets_offset": "usize"}),
+    ("filter_block.rs", r"impl\s+FilterBlockReader", "offset_of", "fbr_offset_of", {"block": "bytes", "offsets_offset": "usize"}),
+    ("filter_block.rs", r"impl\s+FilterBlockReader", "key_may_match", "fbr_key_may_match",
+     {"block": "bytes", "offsets_offset": "usize", "filter_base_lg2": "u32", "policy": "policy"}),
 ]
 
 WIDTH = {"u8": 8, "u32": 32, "u64": 64, "usize": 64}
@@ -356,6 +361,8 @@ class P:
                 e = ("index", e, ix)
             elif self.at("(") and e[0] == "path":
                 e = ("call", e[1], self.args())
+            elif self.at("(") and e[0] == "var":
+                e = ("call", [e[1]], self.args())
             elif self.at("?"):
                 raise Untranslatable("? operator")
             else:
@@ -447,7 +454,7 @@ class P:
 def lean_ty(t):
     if t in INTS:
         return "Nat"
-    return {"bool": "Bool", "bytes": "Bytes", "ordering": "Ordering", "unit": "Unit"}[t]
+    return {"bool": "Bool", "bytes": "Bytes", "ordering": "Ordering", "unit": "Unit", "policy": "Bytes → Bytes → Bool"}[t]
 
 
 class Ctx:
@@ -572,6 +579,10 @@ class Emitter:
                 return {"Less": "Ordering.lt", "Equal": "Ordering.eq", "Greater": "Ordering.gt"}[p[1]], "ordering"
             if p[0] == "Self" and len(p) == 2:
                 return self.const_val(p[1])
+            if len(p) == 2 and p[0] in INTS and p[1] == "BITS":
+                return str(WIDTH[p[0]]), "u32"
+            if len(p) == 2 and p[0] in INTS and p[1] == "MAX":
+                return str(2 ** WIDTH[p[0]] - 1), p[0]
             raise Untranslatable("path %s" % "::".join(p))
         if k == "field":
             if e[1] == ("var", "self") and e[2] in self.selffields:
@@ -740,6 +751,9 @@ class Emitter:
             if t != pt:
                 raise Untranslatable("argument type %s for %s" % (t, pt))
             cs.append(par(c))
+        for f in fields:
+            if f not in self.selffields:
+                raise Untranslatable("call of %s needs self.%s" % (name, f))
         extra = ["self_" + f for f in fields]
         if fuel:
             self.uses_fuel = True
@@ -748,6 +762,12 @@ class Emitter:
 
     def mcall(self, e, env, want):
         recv, m, args = e[1], e[2], e[3]
+        if recv == ("field", ("var", "self"), "policy") and self.selffields.get("policy") == "policy" and m == "key_may_match" and len(args) == 2:
+            a, at_ = self.expr(args[0], env)
+            b, bt = self.expr(args[1], env)
+            if at_ != "bytes" or bt != "bytes":
+                raise Untranslatable("policy.key_may_match on non-byte arguments")
+            return "(self_policy %s %s)" % (par(a), par(b)), "bool"
         if recv == ("var", "self"):
             if m == "cmp" and len(args) == 2:
                 a, _ = self.expr(args[0], env)
@@ -1058,7 +1078,7 @@ def translate(src_dir):
             ctx = Ctx(lambda env2: "pure ()" if ret == "unit" else (_ for _ in ()).throw(Untranslatable("function end without value")),
                       lambda code: "pure %s" % par(code))
             code = em.stmts(body, env, ctx)
-            sig = "".join(" (self_%s : Nat)" % f for f in fields) + "".join(" (%s : %s)" % (env[pn][0], lean_ty(pt)) for pn, pt in params)
+            sig = "".join(" (self_%s : %s)" % (f, lean_ty(ft)) for f, ft in fields.items()) + "".join(" (%s : %s)" % (env[pn][0], lean_ty(pt)) for pn, pt in params)
             fuel = em.uses_fuel
             out.append("/-- %s::%s -/\ndef %s%s%s : Res %s := do\n%s\n" % (
                 fname, rust, lean, " (fuel : Nat)" if fuel else "", sig, par(lean_ty(ret)), ind(code)))
